@@ -4,6 +4,7 @@ import Astm.Model.Timer
 import Astm.Model.Encodings
 import Astm.Model.TreeWire
 import Astm.Model.Lims
+import Astm.Model.Simulator
 
 open Astm Astm.Wire
 
@@ -124,6 +125,17 @@ def handle (toks : List String) : String :=
       "ok " ++ " ; ".intercalate (outs.map showTOut) ++ " | " ++ ",".intercalate live
     | _, _ => "bad-arg"
   | ["default-timeout"] => s!"ok {TIMEOUT}"
+  | "sim" :: toks =>
+    let ls := toks.filter (·.startsWith "L:")
+    let rs := toks.filter (·.startsWith "R:")
+    match ls.mapM (fun t => ofHex (t.drop 2).toString), rs.mapM (fun t => ofHex (t.drop 2).toString) with
+    | some lines, some replies =>
+      let reply := fun i => (replies[i]?).getD []
+      let evs := Astm.Sim.send lines reply
+      "ok " ++ " ".intercalate (evs.map fun e => match e with
+        | .write b => "W" ++ toHex b
+        | .read i => s!"R{i}")
+    | _, _ => "bad-arg"
   | "lims" :: rt :: dl :: atts => match rt.toInt?, dl.toNat?, atts.mapM parseAttempt with
     | some retries, some delay, some as =>
       match as.getLast? with
